@@ -6,6 +6,8 @@ import (
 	"fmt"
 	"io"
 	"math/rand"
+	"os"
+	"path/filepath"
 	"runtime"
 	"sync"
 	"testing"
@@ -94,7 +96,7 @@ func TestC10(t *testing.T) {
 			fcs = append(fcs, fcase{w, "size-4", n, "rand", 4})
 		}
 	}
-	fcs = append(fcs, fcase{3, "rabin-16-32-64", 3000, "rand", 32}, fcase{2, "rabin-32-64-128", 5000, "period8", 64}, fcase{2, "size-1", 40, "zero", 1}, fcase{3, "buzhash", 300000, "rand", 131072}, fcase{2, "", 600000, "rand", 262144})
+	fcs = append(fcs, fcase{3, "rabin-16-32-64", 3000, "rand", 32}, fcase{2, "rabin-32-64-128", 5000, "period8", 64}, fcase{2, "size-1", 40, "zero", 1}, fcase{3, "buzhash", 300000, "rand", 131072}, fcase{2, "", 600000, "rand", 262144}, fcase{3, "", 0, "rand", 262144}, fcase{174, "", 77, "rand", 262144}, fcase{2, "", 262144, "zero", 262144}, fcase{2, "", 262145, "rand", 262144})
 	if !r.Quick() {
 		fcs = append(fcs, fcase{2, "rabin", 700000, "rand", 262144}, fcase{4, "size-7", 1000, "period3", 7}, fcase{174, "size-1", 30277, "rand", 1})
 	}
@@ -146,6 +148,29 @@ func TestC10(t *testing.T) {
 			for i := 0; i < F; i++ {
 				fr := &fragReader{b: content, r: rand.New(rand.NewSource(rr.Int63())), max: 1 + rr.Intn(3*fc.Chunk), zeros: i%2 == 1, withEOF: i%3 == 2}
 				cmp("frag-random", build(fr))
+			}
+			if fc.Ch == "" {
+				// the same bytes as an on-disk file taken in by the path-taking entry point (default chunker)
+				if dir, err := os.MkdirTemp("", "verif-c10-"); err == nil {
+					fp := filepath.Join(dir, "the-file")
+					if os.WriteFile(fp, content, 0o644) == nil {
+						st := store.New()
+						var res buildResult
+						c.Guard("BuildUnixFSRecursive on one file", func() {
+							withWidth(fc.W, func() {
+								l, sz, err := builder.BuildUnixFSRecursive(fp, st.LinkSystem(false))
+								res.root, res.size = linkCid(l), sz
+								if err != nil {
+									res.err = err.Error()
+								}
+							})
+						})
+						res.order = base.order
+						cmp("via-recursive-import", res)
+						c.Count("recursive_import_of_one_file", 1)
+					}
+					os.RemoveAll(dir)
+				}
 			}
 			c.Max("max_distinct_write_orders_file", int64(len(orders)))
 			c.Result(base.key())
